@@ -67,6 +67,7 @@ def ext_top_except(*classes) -> AV:
 UNK = AV()
 EXT_TOP = AV("exc", "<external-exception>")  # some Exception subclass not defined in urllib3
 BASE_TOP = AV("exc", "<interrupt>")  # KeyboardInterrupt / GeneratorExit-like
+GEN_EXIT = AV("exc", "builtins.GeneratorExit", truth=True, none=False)  # thrown in at a yield when the consumer abandons the generator
 RESEND = AV("exc", "<resend>")  # terminal pseudo-exit for self-recursive resend calls
 
 
@@ -314,6 +315,9 @@ class Interp:
                     raises += r2
                     for s2, b in rv:
                         known = self._cmp_known(s2, node, op, a, b)
+                        if isinstance(known, list):  # the rule forked the comparison itself: [(state, truth-of-node)]
+                            out += known
+                            continue
                         if known is not None:
                             out.append((s2, known))
                             continue
@@ -726,7 +730,8 @@ class Interp:
                     res = self.default_call(s2, node, recv, pos, kw)
                 for o in res:
                     if o.kind == "normal":
-                        out.append((o.st, o.val if o.val is not None else UNK))
+                        # a result that carries a symbol is read through the facts already decided about that symbol on this path
+                        out.append((o.st, o.st.view(o.val) if o.val is not None else UNK))
                     else:
                         raises.append(o)
         return out, raises
@@ -928,7 +933,12 @@ class Interp:
                 st.facts.pop(f"field:{key[0]}.{key[1]}", None)
             self.rule.setattr(self, st, target, base, av)
         elif isinstance(target, (ast.Tuple, ast.List)):
-            parts = av.val if av.kind == "tuple" and len(av.val) == len(target.elts) else [UNK] * len(target.elts)
+            if av.kind == "tuple" and len(av.val) == len(target.elts):
+                parts = av.val
+            elif self.rule.wants_subscript and av.sym:
+                parts = [AV("unk", sym=f"idx({av.sym},{i})") for i in range(len(target.elts))]  # term-building rules: element terms
+            else:
+                parts = [UNK] * len(target.elts)
             for t, p in zip(target.elts, parts):
                 self.assign(st, t, p)
         elif isinstance(target, ast.Subscript):
@@ -1016,7 +1026,18 @@ class Interp:
         if isinstance(stmt, (ast.While, ast.For)):
             return self.exec_loop(stmt, st)
         if isinstance(stmt, ast.Assert):
-            return [Out("normal", st)]
+            if not self.rule.model_asserts:
+                return [Out("normal", st)]
+            res, raises = self.truth_fork(st, stmt.test)
+            outs = list(raises)
+            for s, b in res:
+                if b:
+                    outs.append(Out("normal", s))
+                else:
+                    s = s.copy()
+                    s.log(stmt, f"assert {ast.unparse(stmt.test)[:60]} fails")
+                    outs.append(Out("raise", s, AV("exc", "builtins.AssertionError", truth=True, none=False)))
+            return outs
         if isinstance(stmt, ast.Delete):
             s = st.copy()
             r = self.rule.delete(self, s, stmt)
@@ -1045,7 +1066,7 @@ class Interp:
             s1.log(stmt, "yield -> resumed")
             s2 = s.copy()
             s2.log(stmt, "yield -> abandoned (GeneratorExit)")
-            outs += self.rule.on_yield(self, stmt, av, [Out("normal", s1), Out("raise", s2, BASE_TOP)])
+            outs += self.rule.on_yield(self, stmt, av, [Out("normal", s1), Out("raise", s2, GEN_EXIT)])
         return outs
 
     # ---- @contextmanager inlining
@@ -1193,6 +1214,7 @@ class Interp:
 
 class BaseRule:
     wants_subscript = False  # rule.subscript(it, st, node, base, parts, is_slice) composes non-dict subscripts
+    model_asserts = False  # True: `assert t` is `if not t: raise AssertionError` (default: asserts are skipped)
     wants_compose = False  # rule.compose(it, st, node, [(child_node, av)...]) composes List/BinOp/JoinedStr/... values
 
     def subscript(self, it, st, node, base, parts, is_slice):
